@@ -203,7 +203,7 @@ def harnesses(tier):
                 "<= 2, 2 labels): adjacent interchange of slices, i.e. of "
                 "boxes that are composite diagrams" % (3 if q else 4),
                 timeout_s=T))
-    k, w, a, L, steps = (3, 2, 1, 2, 2) if q else (3, 3, 2, 2, 3)
+    k, w, a, L, steps = (3, 2, 1, 2, 2) if q else (3, 2, 2, 2, 2)
     hs.append(H("seqA", seqA, dict(k=k, w=w, a=a, L=L, steps=steps), FUNCS,
                 covers=["refused", "moved"], modeb=True,
                 bounds="Mode A: %d-step interchange histories on diagrams of "
